@@ -133,6 +133,12 @@ def run_check(prop: Prop, tier, seed, replay=None):
         tok, tdetail = translator_db.regenerate()
         obligations.append(("translator: shipped facts and db.rs knobs regenerated from /repo", tok, tdetail))
 
+    if getattr(prop, "needs_knobs", False):
+        from . import translator_knobs
+
+        tok, tdetail = translator_knobs.regenerate()
+        obligations.append(("translator: operator table, builtin names, display specifications regenerated from /repo", tok, tdetail))
+
     # 3. Lean: theorems + driver
     targets = ["driver"] + ([prop.module] if prop.module else [])
     lok, llog = C.build_lean(targets)
